@@ -591,7 +591,12 @@ class _BBRepr(Repr):
         return ret
 
     def repr_complex(self, x, level):
-        if x != x or x - x != 0:  # (a non-finite part: (inf+1j) is not a Python expression)
+        # (a non-finite part: (inf+1j) is not a Python expression; a negative
+        # zero, or a negative imaginary part beside a zero real part: -1.5j
+        # evaluates to (-0-1.5j))
+        parts = (x.real, x.imag)
+        if (x != x or x - x != 0 or any(p == 0 and str(p)[0] == '-' for p in parts)
+                or (x.real == 0 and x.imag < 0)):
             return 'complex(%s, %s)' % (self.repr_float(x.real, level), self.repr_float(x.imag, level))
         return repr(x)
 
